@@ -31,6 +31,18 @@ func c02Defaults(p *Prog, r *Report, rule string) {
 		}
 		main, _ := constValOfKeyStr(p, "internal/model.MainTxId")
 		env := &Env{P: p, Pkg: fi.Pkg, Vars: map[types.Object]*Val{idObj: strVal(main)}}
+		// named results start as zero values (tx.Id = id; tx.IsoLevel = ... ; return tx, nil)
+		if fi.Decl.Type.Results != nil {
+			for _, fld := range fi.Decl.Type.Results.List {
+				for _, nm := range fld.Names {
+					if o := info.Defs[nm]; o != nil {
+						if z := zeroVal(o.Type()); z != nil {
+							env.Vars[o] = z
+						}
+					}
+				}
+			}
+		}
 		_, exit, err := f.WalkPath(env)
 		good := false
 		detail := "the main-id path is not evaluable"
